@@ -670,6 +670,7 @@ RULES = [
     ("C16.handoff", rule_handoff),
     ("C16.handoff", rule_bp_handoff),
     ("C16.pause", rule_pause),
+    ("C16.aliases", lambda c, r: __import__("sa.aliases", fromlist=["x"]).rule_aliasmap(c, r, "C16.aliases")),   # the legacy spellings of the fork handlers (rcu_bp_after_fork_child, call_rcu_after_fork_child_bp, ...) reach the handler of the same name
     ("C16.child", rule_child),
     ("C16.hooks", rule_hooks),
     ("C16.wqreq", rule_wq_requester),
